@@ -55,6 +55,12 @@ Fixpoint p_devs (c : cfg) (n : nat) (next : nat) : P (res (list dev * nat)) :=
       else if kind =? 8 then
         (do t0 <- pz; do s0 <- p_s; do c0 <- p_c; do k1 <- p_kvals; do k2 <- p_kvals; do k3 <- p_kvals;
          continue (DPidw next (pidw_init t0 s0 c0 {| k_pos := k1; k_vel := k2; k_acc := k3 |})) 1%nat)
+      else if kind =? 9 then
+        (* GearTrain::with_ratio(Quantity): the ratio must be dimensionless when checking is on *)
+        (do r <- p_f; do m <- pz; do sx <- pz;
+         if chk c && negb ((m =? 0) && (sx =? 0)) then (do _ <- p_devs c k next; pret Panic)
+         else continue (DGear next (S next) r) 2%nat)
+      else if kind =? 10 then continue (DDiff next (S next) (S (S next)) DEqual) 3%nat
       else fun _ => None
   end.
 
